@@ -193,6 +193,16 @@ func collect(sortAll, sortHist bool, drop string) string {
 	return strings.Join(parts, " ")
 }
 
+// willBody substitutes @KEY:<name>@ in a will message by that key's string (a will addressed to one of the
+// broker's own request channels carries a JSON request).
+func willBody(m []byte) []byte {
+	s := string(m)
+	for n, k := range keys {
+		s = strings.ReplaceAll(s, "@KEY:"+n+"@", k)
+	}
+	return []byte(s)
+}
+
 func request(name string, mid uint16, what string, body interface{}) {
 	payload, _ := json.Marshal(body)
 	b.Clients[name].Send(&mqtt.Publish{Header: mqtt.Header{QOS: 1}, MessageID: mid, Topic: []byte("emitter/" + what + "/"), Payload: payload})
@@ -261,7 +271,7 @@ func step(w []string, line string) string {
 			return "conn " + w[1] + " guid=" + vlib.Hex([]byte(guid)) + "\x00ok"
 		case "connect":
 			pkt := &mqtt.Connect{ProtoName: []byte("MQTT"), Version: 4, ClientID: []byte(w[1]), Username: vlib.UnHex(w[2]), UsernameFlag: w[2] != "-",
-				WillFlag: w[3] == "1", WillRetainFlag: w[4] == "1", WillTopic: topic(w[5], w[6]), WillMessage: vlib.UnHex(w[7])}
+				WillFlag: w[3] == "1", WillRetainFlag: w[4] == "1", WillTopic: topic(w[5], w[6]), WillMessage: willBody(vlib.UnHex(w[7]))}
 			b.Clients[w[1]].Send(pkt)
 			b.Clients[w[1]].Await("connack:")
 			return collect(false, false, "")
